@@ -617,7 +617,7 @@ class C11(LiftProp):
     rule = ("well-formed files with >= 2 chains x intervals: answer over the file = multiset union of the answers over each chain "
             "alone; a random permutation of the chains gives the same multisets; the file is built twice in-process (fresh "
             "RandomStates) and the two answer sequences must be identical; each answer is sorted by forward reference start; "
-            "thorough also rebuilds in a fresh process; non-trivial = >= 2 chains contribute to one answer; distinct by (file, interval)")
+            "one case in eight also rebuilds in a fresh process (fresh hash seeds); non-trivial = >= 2 chains contribute to one answer; distinct by (file, interval)")
 
     def evaluate(self, ctx, case):
         ev = Eval()
@@ -632,6 +632,18 @@ class C11(LiftProp):
         if i_again != i:
             ev.judge = "rebuilding from the same bytes changed the answers or their order"
             return ev
+        if hash(case_key(case)) % 8 == 0:
+            # across processes: a fresh process has fresh hash-map seeds
+            from .proc import Server
+            fresh = Server([ctx.impl_bin], "impl-fresh")
+            try:
+                i_fresh = fresh.ask(ev.requests[0])
+            finally:
+                fresh.close()
+            ev.tags.append("fresh-process rebuild")
+            if i_fresh != i:
+                ev.judge = "rebuilding in a fresh process changed the answers or their order"
+                return ev
         for iv, (tag, pairs) in zip(case["ivs"], answers):
             if any(pairs[k][2] > pairs[k + 1][2] for k in range(len(pairs) - 1)):
                 ev.judge = "answer for %s is not ordered by forward reference start: %s" % (iv, pairs)
@@ -1411,6 +1423,7 @@ class C12(Prop):
         case["clean"] = not any(x.startswith("E") for x in b0.split(" ; "))
         vs = self.variants(case)
         base = None
+        base_lines = None
         ivs = ",".join(iv_tok(*iv) for iv in case["ivs"])
         for label, events in vs:
             src = ch.src_events(events)
@@ -1437,6 +1450,16 @@ class C12(Prop):
                         ev.judge = "machine differs under '%s': %s vs baseline %s" % (label, o, lbase)
                         break
             if label != "blank padding":
+                # parsed lines (`lines()`): the same sequence under every encoding and chunking
+                i4, m4 = both(ctx, ev, "lines %s" % src)
+                if i4 != m4:
+                    ev.corr = "lines (%s): impl %r vs model %r" % (label, i4[:200], m4[:200])
+                l4 = i4.split(" ; ")
+                if base_lines is None:
+                    base_lines = l4
+                elif l4 != base_lines and not (base_lines[-2:] == ["empty", "eof"] and l4 == base_lines[:-2] + ["eof"] and "fin=False" in label):
+                    ev.judge = "parsed lines differ under '%s': %s vs baseline %s" % (label, l4[-4:], base_lines[-4:])
+                    break
                 # raw reads: consumed byte counts add up, text = piece without LF then CR
                 i3, m3 = both(ctx, ev, "raw %s" % src)
                 if i3 != m3:
